@@ -85,3 +85,9 @@ func init() {
 		Assume: []string{"the simple-mode result of the same build is the reference (it is tied to the model by C01-C09)", "only the interleavings actually produced are judged; evidence counts distinct hook-event orders"},
 		Rule:   "cases: seeded documents with 1-40 roots (blocks of 1-8 nodes, some equal root names) in every spelling incl. # heading roots and leading blank lines, a quarter with one injected malformed line, each with one operation (text, custom branches, JSON, YAML, dry-run, walk, mkdir, verify, strict verify); each scenario runs once in simple mode and 10 (quick) / 20 (thorough) times in massive mode under GOMAXPROCS in {1,2,4,16} x {no perturbation, yielding writer/callback, slow chunked reader, light and heavy seeded delays at the verifPoint hooks}; one evaluation = one massive execution compared with the simple result; distinct key = hash(document, operation, hook-event order of that execution), so distinct_nontrivial counts distinct (scenario, interleaving) pairs; non-trivial = >= 2 roots"}
 }
+
+func init() {
+	props["C13"] = propCfg{Level: "exploration", Race: true,
+		Assume: []string{"two goroutines never operate on the same tree at the same time (the statement promises independence between trees and calls, not thread-safe nodes)", "the sequential specification is the reference model of model/ (state = tree as built so far)"},
+		Rule: "history checking: (a) EVERY sequential history up to length 8 (quick) / 9 (thorough) over {NewRoot (<= 2 live trees), Add(tree, parent in {root, last added}, name in {a,b}), Op(tree)} ending in an operation, with text output, and at shorter bounds with walk, iterator, JSON, custom branches, dry-run, mkdir (jail delta) and verify; (b) seeded random histories of 20-200 calls on <= 6 live trees over 9 operation kinds; (c) the same kind of histories split across 2-8 goroutines with trees handed between goroutines through a channel and independent From-Markdown calls (text, massive, JSON) running concurrently, also on the race-detector build; every call is recorded at the client boundary with logical call/return stamps, histories are partitioned by tree and each partition is checked with porcupine against the specification; distinct key = hash(history, tree); non-trivial = >= 4 calls including an operation"}
+}
